@@ -5,7 +5,7 @@
 set -u
 ID="$1"; NAME="${2:-$1}"; shift; shift || true
 EXTRA="$*"
-T=/tmp/wt_$NAME; S=/tmp/seed_$NAME
+T=${WT_PREFIX:-/tmp/wt_}$NAME; S=${SEED_PREFIX:-/tmp/seed_}$NAME; STORE=${STORE_NAME:-$NAME}
 [ -d "$T" ] || { echo "no worktree $T"; exit 2; }
 cd "$T"
 git checkout -q -- . && git apply --check "$S/patch.diff" || { echo "patch does not apply"; exit 1; }
@@ -17,10 +17,10 @@ make -j16 >/dev/null 2>&1; mut_check=$(make -j16 check 2>&1 | grep -E '^# (PASS|
 mut_demo=$(demo | tail -1)
 echo "base: check=$base_check demo_rc=$base_demo | patched: check=$mut_check demo_rc=$mut_demo"
 if [ "$base_check" = "#PASS:82#FAIL:0" ] && [ "$mut_check" = "#PASS:82#FAIL:0" ] && [ "$base_demo" = "0" ] && [ "$mut_demo" != "0" ]; then
-  D=/verif/seeded/$NAME; mkdir -p $D
+  D=/verif/seeded/$STORE; mkdir -p $D
   cp "$S/patch.diff" "$S/demo.c" $D/; [ -f "$S/NOTES.md" ] && cp "$S/NOTES.md" $D/
   for f in "$S"/*.sh "$S"/*.h "$S"/*.py; do [ -f "$f" ] && cp "$f" $D/; done
-  python3 - "$ID" "$NAME" "$EXTRA" "$base_check" "$mut_check" "$base_demo" "$mut_demo" <<'PY'
+  python3 - "$ID" "$STORE" "$EXTRA" "$base_check" "$mut_check" "$base_demo" "$mut_demo" <<'PY'
 import json,sys,os
 pid,name,extra,bc,mc,bd,md=sys.argv[1:8]
 d='/verif/seeded/'+name
@@ -31,7 +31,7 @@ json.dump({"property":pid,"name":name,"breaks":"see NOTES.md","needs_to_manifest
         "cc -O1 -g -I<tree>/src/libsodium/include demo.c <tree>/src/libsodium/.libs/libsodium.a -lpthread "+extra+" && ./demo (both trees)"],
  "detected_by":"(filled in after running the checks)"}, open(d+'/meta.json','w'), indent=1)
 PY
-  echo "KEPT $NAME"
+  echo "KEPT $STORE"
   rm -f "$S/demo.bin"
   git -C /repo worktree remove --force "$T"
 else
